@@ -190,6 +190,20 @@ def run(ck):
                 for c in conv_calls:
                     ck.verdict(T.resolves_to_arg(b, c.args[conv[1] - 1], 4), "3", "T6-provenance", b, "cvt_mode(own mode)", "translates the function's own mode", "cvt_mode is not applied to the function's own mode parameter", site=b.where(c.bb))
         mapcalls = [cs for cs in T.calls(b, name=maps) if T.path_has(b, cs.args[0], ".level_triggered")]
+        if not mapcalls:
+            # the same table under another field name / in another container, found by its role: a collection of this
+            # Poll that stores polling events (the registrations to re-arm), written with the collection's own
+            # insert / remove operation (helpers of a private wrapper type are inlined or looked through)
+            eq = ("insert", "push", "push_back", "entry") if maps == "insert" else ("retain", "retain_mut", "remove", "swap_remove", "remove_entry")
+            view = f.deep_view(b, lambda cb_: True) if hasattr(f, "deep_view") else b
+            for v in {id(view): view, id(b): b}.values():
+                for cs in T.calls(v, name=eq):
+                    if v.is_cleanup(cs.bb) or not cs.args:
+                        continue
+                    pl0 = op_place(cs.args[0])
+                    ts = f.types[f.peel_refs(pl0["t"])]["s"] if pl0 is not None else ""
+                    if "polling::Event" in ts or "Event" in ts.split("<")[-1] or ("Event" in ts and any(x in ts for x in ("HashMap", "Vec", "BTreeMap"))):
+                        mapcalls.append(cs)
         ck.verdict(bool(mapcalls), "3", "T8-sibling-agreement", b, "level-map:%s" % (maps if isinstance(maps, str) else "|".join(maps)), "the level-emulation map is maintained (%s)" % (maps if isinstance(maps, str) else "/".join(maps)), "%s does not maintain the level-emulation map" % q, site=b.where())
 
     # removal paths (shared with C06.2): a source removed from inside its callback is unregistered
